@@ -450,6 +450,6 @@ def _run_case(case, rec, ctx) -> None:
 
 META = {
     "technique": "runtime contracts on lambdified boost/rotation arrays (Lorentz-group invariants, numpy reference) over stress-generated momenta",
-    "level_text": "Every array that ampform's own NumPy printers generate for BoostMatrix, BoostZMatrix, RotationY/ZMatrix, NegativeMomentum, MinkowskiMetric and einsum products of them is judged against the Lorentz-group identities of the statement on momenta spanning 1e-6..1e6 in beta*gamma, all direction classes, four batch sizes and cse on/off; held means no observed execution violated them. Sampling, not proof.",
+    "level_text": "Every array that ampform's own NumPy printers generate for BoostMatrix, BoostZMatrix, RotationY/ZMatrix, NegativeMomentum, MinkowskiMetric and einsum products of them is judged against the Lorentz-group identities of the statement on momenta spanning 1e-6..1e6 in beta*gamma, all direction classes, four batch sizes and cse on/off; held means no observed execution violated them. Sampling, not proof. Also judged: composite momenta p1+p2, NegativeMomentum and inverse boost of an already boosted momentum, products with repeated factors, as_explicit() after a caller edited the matrix it received; an exception raised by generated code is a violation.",
     "level_note": "Trusts numpy linear algebra; tolerances scale with the conditioning of the documented formulas (gamma^2..gamma^3 * eps). Momenta beyond beta*gamma 1e6 and non-time-like inputs are not explored.",
 }
